@@ -93,7 +93,9 @@ fn one(id: u64, v: &Value, seed: u64) -> Value {
             // an existing document whose only test fails on output (update_output) or on its exit code (update_code)
             let code_line = if path == "update_code" { Some(9) } else if code != 0 { Some(code) } else { None };
             let cmd_lines: Vec<&str> = command.split('\n').collect();
-            let doc = if fmt == "md" {
+            // convert: the existing document is in the OTHER format; `fmt` is the format that is written
+            let src_md = (fmt == "md") != (path == "convert");
+            let doc = if src_md {
                 let mut d = String::from("# A Title\n\n```scrut\n");
                 d.push_str(&format!("$ {}\n", cmd_lines[0]));
                 for l in &cmd_lines[1..] { d.push_str(&format!("> {l}\n")); }
@@ -109,11 +111,16 @@ fn one(id: u64, v: &Value, seed: u64) -> Value {
                 if let Some(c) = code_line { d.push_str(&format!("  [{c}]\n")); }
                 d
             };
-            let tests = parse(&doc)?;
+            let tests = if src_md { md_parser().parse(&doc).map(|x| x.1) } else { cram_parser().parse(&doc).map(|x| x.1) }?;
             if tests.len() != 1 { anyhow::bail!("harness: seed document has {} tests", tests.len()); }
             let tc = tests[0].clone();
             let result = tc.validate(&output);
             if result.is_ok() { anyhow::bail!("harness: seed document unexpectedly passes"); }
+            if path == "convert" {
+                // src/bin/commands/update.rs convert_test: the outcome carries the SOURCE format, the generator is the target's
+                let oc = Outcome { location: None, output: output.clone(), testcase: tc, format: if src_md { ParserType::Markdown } else { ParserType::Cram }, escaping: escaper.clone(), result };
+                return if fmt == "md" { MarkdownTestCaseGenerator::default().generate_testcases(&[&oc]) } else { CramTestCaseGenerator::default().generate_testcases(&[&oc]) };
+            }
             let oc = Outcome { location: None, output: output.clone(), testcase: tc, format, escaping: escaper.clone(), result };
             if fmt == "md" { MarkdownUpdateGenerator::default().generate_update(&doc, &[&oc]) } else { CramUpdateGenerator::default().generate_update(&doc, &[&oc]) }
         }
